@@ -327,8 +327,8 @@ func run() int {
 		hr := &harnessResult{Spec: hs, Report: rep, KFConfirmed: map[string]string{}, Cross: map[string]int{}}
 		results = append(results, hr)
 		if *flagVerbose {
-			fmt.Fprintf(os.Stderr, "%s: %d paths in %.1fs, ends=%v forks=%d merged=%d modelhits=%d obligations=%d discharged=%d unknown=%d violations=%v kf=%d queries=%d solver=%.1fs\n",
-				hs.Name, rep.Paths, rep.WallS, rep.Ends, rep.Forks, rep.Merged, rep.ModelHits, rep.ObTotal, rep.ObDischarged, rep.ObUnknown, rep.ViolationCount, len(rep.KFSeen), rep.Solver.Queries, rep.Solver.Time.Seconds())
+			fmt.Fprintf(os.Stderr, "%s: %d paths in %.1fs, ends=%v forks=%d merged=%d modelhits=%d obligations=%d discharged=%d unknown=%d feasunknown=%d violations=%v kf=%d queries=%d solver=%.1fs\n",
+				hs.Name, rep.Paths, rep.WallS, rep.Ends, rep.Forks, rep.Merged, rep.ModelHits, rep.ObTotal, rep.ObDischarged, rep.ObUnknown, rep.FeasUnknown, rep.ViolationCount, len(rep.KFSeen), rep.Solver.Queries, rep.Solver.Time.Seconds())
 			for k, n := range rep.EndDetails {
 				fmt.Fprintf(os.Stderr, "   end %s ×%d\n", k, n)
 			}
